@@ -39,6 +39,9 @@ func dirFiles(c Case) map[string]string {
 				b.WriteString(stmt(f, i) + ";\n")
 				if i == 0 {
 					fmt.Fprintf(&b, "CREATE INDEX i%d_%d ON t%d_%d (v);\n", f+1, i+1, f+1, i+1)
+					// every kind of object a replay can leave behind in the dev database.
+					fmt.Fprintf(&b, "CREATE VIEW w%d_%d AS SELECT id FROM t%d_%d;\n", f+1, i+1, f+1, i+1)
+					fmt.Fprintf(&b, "CREATE TRIGGER g%d_%d AFTER INSERT ON t%d_%d BEGIN UPDATE t%d_%d SET v = 'x' WHERE id = new.id; END;\n", f+1, i+1, f+1, i+1, f+1, i+1)
 				}
 			}
 		}
@@ -54,6 +57,9 @@ func sqlFile(c Case, variant int) string {
 			b.WriteString(failing + ";\n")
 		} else {
 			b.WriteString(stmt(variant, i) + ";\n")
+			if i == 0 {
+				fmt.Fprintf(&b, "CREATE VIEW w%d_%d AS SELECT id FROM t%d_%d;\n", variant+1, i+1, variant+1, i+1)
+			}
 		}
 	}
 	return b.String()
@@ -292,7 +298,7 @@ func classify(c Case, problems []string) string {
 
 func Run(r *report.Run) {
 	defer clih.Cleanup()
-	r.Rule = "real CLI with a SQLite file as dev database: commands {migrate diff, migrate validate, migrate lint --latest N, schema apply --to file.sql / file.hcl, schema diff file.sql file.sql, schema inspect file.sql} x dev state {empty, table with rows, view only; thorough: table+trigger} x migration directory / schema file shapes with a really failing statement at every position (and none); dev database and directory read before/after by our own connection / file reads; non-trivial = every case; distinct = the case tuple"
+	r.Rule = "real CLI with a SQLite file as dev database: commands {migrate diff, migrate validate, migrate lint --latest N, schema apply --to file.sql / file.hcl, schema diff file.sql file.sql, schema inspect file.sql} x dev state {empty, table with rows, view only; thorough: table+trigger} x migration directory / schema file shapes (tables, indexes, views and triggers) with a really failing statement at every position (and none); dev database and directory read before/after by our own connection / file reads; non-trivial = every case; distinct = the case tuple"
 	r.Assumptions = []string{"`migrate diff` may add one file and rewrite atlas.sum when it succeeds; nothing else may change in the directory"}
 	cs := cases(r.Tier)
 	res := make([][]string, len(cs))
